@@ -12,10 +12,10 @@ H = vfcore.VERIF / "harness/material"
 LIBS = ("TFELMaterial", "TFELMath", "TFELUtilities", "TFELException")
 PARTS = {
     # part: (criteria, quick cases, thorough cases)
-    "c22a": (("Hosford1972", "Drucker1949", "Cazacu2004Isotropic", "MohrCoulomb"), 160000, 4000000),
-    "c22b": (("Barlat2004",), 60000, 1500000),
-    "c22c": (("Cazacu2001", "Cazacu2004Orthotropic"), 120000, 3000000),
-    "c22d": (("GursonTvergaardNeedleman1982", "RousselierTanguyBesson2002", "MichelAndSuquet1992HollowSphere"), 100000, 2400000),
+    "c22a": (("Hosford1972", "Drucker1949", "Cazacu2004Isotropic", "MohrCoulomb"), 160000, 2000000),
+    "c22b": (("Barlat2004",), 60000, 700000),
+    "c22c": (("Cazacu2001", "Cazacu2004Orthotropic"), 120000, 1500000),
+    "c22d": (("GursonTvergaardNeedleman1982", "RousselierTanguyBesson2002", "MichelAndSuquet1992HollowSphere"), 100000, 1200000),
 }
 
 
